@@ -4,6 +4,7 @@
   on every run by executing the Lean AVM semantics and walking the tool's graph (harness/engine.py).
 -/
 import TealerModel.Lemmas.Cfg
+import TealerModel.Lemmas.StepEdge
 namespace Tealer.C04
 
 /-- blocks partition the instructions in source order: concatenating the created blocks in creation order
@@ -67,6 +68,115 @@ theorem C04_prune_all (bs : List RawBlock) (bi : Nat) (bs' : List RawBlock) (h :
               simpa using this
       exact key _ _ _ h1
     simp [hlen, hbi]
+
+/-- THE CFG OVER-APPROXIMATES REAL CONTROL FLOW, instruction level.  Whatever the environment and the machine state, one
+    step of the concrete AVM semantics (spec side, Avm.step) from instruction `s.pc` lands
+    * on a successor recorded for that instruction by first_pass / second_pass (model side, insNext), or
+    * past the last instruction (the program ends there), or
+    * for `callsub l`, on the label `l` with the return address pushed — the edge the tool represents by
+      `called_subroutine`, or
+    * for `retsub`, on the return address popped from the call stack — the edge the tool represents by the return point of
+      the matching callsub. -/
+theorem C04_step_along_edge (prog : List Ins) (nexts : List (List Nat)) (h : insNext prog = .ok nexts)
+    (e : Avm.Env) (s s' : Avm.State) (i : Ins) (hi : prog[s.pc]? = some i)
+    (hs : Avm.step prog e s = .next s') :
+    s'.pc ∈ nexts[s.pc]!
+    ∨ (s'.pc = prog.length ∧ s.pc + 1 = prog.length ∧ i.op.noFallthrough = false)
+    ∨ (∃ l, i.op = .callsub l ∧ Avm.labelPos prog l = some s'.pc ∧ s'.calls = s.calls ++ [s.pc + 1])
+    ∨ (i.op = .retsub ∧ s.calls.getLast? = some s'.pc ∧ s'.calls = s.calls.dropLast) := by
+  obtain ⟨jumps, hj, hn⟩ := StepEdge.insNext_get prog nexts h s.pc i hi
+  have hlt : s.pc < prog.length := (List.getElem?_eq_some_iff.mp hi).1
+  -- an advancing step
+  have hadv : i.op.noFallthrough = false → s'.pc = s.pc + 1 →
+      s'.pc ∈ nexts[s.pc]! ∨ (s'.pc = prog.length ∧ s.pc + 1 = prog.length ∧ i.op.noFallthrough = false) := by
+    intro hnf hpc
+    by_cases hl : s.pc + 1 < prog.length
+    · left; rw [hn, hpc]; simp [hnf, hl]
+    · right
+      have : s.pc + 1 = prog.length := by omega
+      exact ⟨by omega, this, hnf⟩
+  -- a jump to a label of the instruction
+  have hjump : ∀ l p, l ∈ i.op.jumpLabels → Avm.labelPos prog l = some p → p ∈ nexts[s.pc]! := by
+    intro l p hl hp
+    obtain ⟨y, hy, hf⟩ := StepEdge.mapM_except_mem _ _ _ hj l hl
+    have := (StepEdge.labelPos_lookup prog l p).mp hp
+    rw [this] at hf
+    cases hf
+    rw [hn]; simp [hy]
+  have hadv' : i.op.noFallthrough = false → s'.pc = s.pc + 1 →
+      s'.pc ∈ nexts[s.pc]!
+      ∨ (s'.pc = prog.length ∧ s.pc + 1 = prog.length ∧ i.op.noFallthrough = false)
+      ∨ (∃ l, i.op = .callsub l ∧ Avm.labelPos prog l = some s'.pc ∧ s'.calls = s.calls ++ [s.pc + 1])
+      ∨ (i.op = .retsub ∧ s.calls.getLast? = some s'.pc ∧ s'.calls = s.calls.dropLast) := by
+    intro a b
+    rcases hadv a b with h | h
+    · exact Or.inl h
+    · exact Or.inr (Or.inl h)
+  unfold Avm.step at hs
+  simp only [hi] at hs
+  cases hop : i.op <;> simp only [hop] at hs <;> rw [← hop]
+  case b l =>
+    split at hs
+    · simp only [Avm.Outcome.next.injEq] at hs; subst hs
+      exact Or.inl (hjump l _ (by simp [hop, Op.jumpLabels]) ‹_›)
+    · cases hs
+  case bz l =>
+    repeat' split at hs
+    all_goals first
+      | (cases hs; done)
+      | (simp only [Avm.Outcome.next.injEq] at hs; subst hs
+         first
+           | exact Or.inl (hjump l _ (by simp [hop, Op.jumpLabels]) ‹_›)
+           | exact hadv' (by simp [hop, Op.noFallthrough]) rfl)
+  case bnz l =>
+    repeat' split at hs
+    all_goals first
+      | (cases hs; done)
+      | (simp only [Avm.Outcome.next.injEq] at hs; subst hs
+         first
+           | exact Or.inl (hjump l _ (by simp [hop, Op.jumpLabels]) ‹_›)
+           | exact hadv' (by simp [hop, Op.noFallthrough]) rfl)
+  case switch ls =>
+    repeat' split at hs
+    all_goals first
+      | (cases hs; done)
+      | (simp only [Avm.Outcome.next.injEq] at hs; subst hs
+         first
+           | exact Or.inl (hjump _ _ (by simp only [hop, Op.jumpLabels]; exact List.mem_of_getElem? ‹_›) ‹_›)
+           | exact hadv' (by simp [hop, Op.noFallthrough]) rfl)
+  case match_ ls =>
+    repeat' split at hs
+    all_goals first
+      | (cases hs; done)
+      | (simp only [Avm.Outcome.next.injEq] at hs; subst hs
+         first
+           | exact Or.inl (hjump _ _ (by simp only [hop, Op.jumpLabels]; exact (List.of_mem_zip (List.mem_of_find?_eq_some ‹_›)).2) ‹_›)
+           | exact hadv' (by simp [hop, Op.noFallthrough]) rfl)
+  case callsub l =>
+    split at hs
+    · simp only [Avm.Outcome.next.injEq] at hs; subst hs
+      exact Or.inr (Or.inr (Or.inl ⟨l, hop, ‹_›, rfl⟩))
+    · cases hs
+  case retsub =>
+    split at hs
+    · simp only [Avm.Outcome.next.injEq] at hs; subst hs
+      exact Or.inr (Or.inr (Or.inr ⟨rfl, ‹_›, rfl⟩))
+    · cases hs
+  case other name po pu =>
+    exact hadv' (by simp [hop, Op.noFallthrough]) (StepEdge.stepOther_pc s s' name hs)
+  all_goals
+    repeat' split at hs
+  all_goals first
+    | (cases hs; done)
+    | (simp only [Avm.Outcome.next.injEq] at hs; subst hs
+       exact hadv' (by simp [hop, Op.noFallthrough]) rfl)
+
+/-- the hypotheses of `C04_step_along_edge` are met by real steps: a taken `bnz` lands on the recorded jump successor -/
+example :
+    let prog : List Ins := [⟨1, .int (.lit 1), ""⟩, ⟨2, .bnz "x", ""⟩, ⟨3, .err, ""⟩, ⟨4, .label "x", ""⟩, ⟨5, .int (.lit 1), ""⟩]
+    (match Avm.step prog { size := 1, self := 0, txns := [⟨[]⟩] } { pc := 1, stack := [.int 1] } with
+      | .next s' => s'.pc == 3 | _ => false) = true ∧
+    (insNext prog).toOption = some [[1], [2, 3], [], [4], []] := by decide
 
 example : (createBB staleWitness ((insNext staleWitness).toOption.getD [])).1.flatten = List.range 8 := by decide
 
